@@ -9,7 +9,7 @@ package loadfile
 // obligation that the receiver really is one.
 //@ dispatch FileCache *fileCache
 //
-//@ pred wfcache(fc FileCache) = typeis(fc, *fileCache) && fc.(*fileCache) != nil && fc.(*fileCache).files != nil
+//@ pred wfcache(fc FileCache) = typeis(fc, *fileCache) && fc.(*fileCache) != nil && allocated(fc.(*fileCache)) && fc.(*fileCache).files != nil
 //@ pred resolved(absDir string, f string) string = ite(fp_isabs(f), f, fp_join2(absDir, f))
 //
 //@ func NewFileCacheUsingContext
@@ -32,6 +32,7 @@ package loadfile
 //
 //@ func (*fileCache).LoadContext
 //@   requires fc != nil && fc.files != nil
+//@   modifies fc.files
 //@   ensures [all-read-or-error] result == nil ==> fc.files != nil && (forall k string :: indom(fc.files, k) <==> indom(old(fc.files), k))
 //@   ensures [paths-kept] result == nil ==> (forall k string :: indom(old(fc.files), k) ==> fc.files[k].ID == old(fc.files)[k].ID && fc.files[k].AbsolutePath == old(fc.files)[k].AbsolutePath)
 //@   ensures [root-kept] fc.rootDir == old(fc.rootDir)
